@@ -133,7 +133,7 @@ func (f *formatter) WriteDescription(s string) *formatter {
 	}
 
 	f.WriteString(`"""`)
-	ss := strings.Split(s, "\n")
+	ss := strings.Split(strings.ReplaceAll(s, `"""`, `\"""`), "\n")
 	f.WriteNewline()
 	for _, s := range ss {
 		f.WriteString(s).WriteNewline()
